@@ -151,6 +151,7 @@ type Exec struct {
 	delayMode  bool // deviation = delay w.r.t. the deterministic default scheduler (instead of preemption)
 	keyRunning bool // bounded search: the running task is part of the state (it decides what is a preemption)
 	aborted    bool
+	cleanups   []func()
 	ending     bool
 	log        []string
 	wantLog    bool
@@ -786,6 +787,11 @@ func (e *Exec) run(harness func(*H)) {
 		e.cur = nil
 	}
 	e.teardown()
+	// resources registered with H.Cleanup are released outside the scheduler, after every task is gone
+	for i := len(e.cleanups) - 1; i >= 0; i-- {
+		e.cleanups[i]()
+	}
+	e.cleanups = nil
 }
 
 func (e *Exec) trString(tr transition) string {
